@@ -15,6 +15,7 @@ for d in sorted(os.listdir('/verif/seeded')):
     short = res.get(d, {}).get('short') or (m.get('summary') or '')[:200].replace('\n', ' ')
     prior.setdefault(d.split('-')[0], []).append(short)
 REQ3 = {
+ 'MN': '''3. It must need SOMETHING SPECIFIC to manifest - not be exposed at once by ordinary use. TWELVE changes were already tried for this property (listed below, one line each); do not repeat their ideas, files or code paths where you can avoid it. Change {l1}: put the slip where something ENDS or is RENEWED - a timeout or deadline, keep-alive, Close / Stop / Shutdown / session termination or expiry, clean-up of a map or goroutine when a session, stream, call or child process ends, reconnect / resume / re-initialize after such an end - so that the property breaks for what happens around or after that ending (and only then). Change {l2}: put the slip into a pair of operations that must mirror each other - encode / decode, register / look up, write / parse, escape / unescape, header set / header read, number or id formatting / matching, omitempty / presence tests, pointer vs value receivers, copy vs alias - so that the two sides disagree only for PARTICULAR VALUES (a zero or empty value, a value with special characters or case, a large or negative number, a nil vs empty collection, a key that differs only in case or normalisation).''',
  'KL': '''3. It must need SOMETHING SPECIFIC to manifest - not be exposed at once by ordinary use. TEN changes were already tried for this property (listed below, one line each); do not repeat their ideas, files or code paths where you can avoid it. Change {l1}: write it as a plausible FEATURE ADDITION or PERFORMANCE OPTIMISATION (a cache, a pool, a fast path, an early return, batching, lazy initialisation, a new option with a default) whose slip only bites from the N-th use on, above or below a size threshold, after a specific sequence of public calls, or for one value of an option - and say in meta.json what the commit message of such a change would have been. Change {l2}: make it an INTERPLAY of two public features that are each fine alone (for example retry + sessions, middlewares + list filters, stateless mode + notifications, stdio + roots, context functions + SSE, custom paths + reconnect, unregister + in-flight calls, two servers or two clients in one process, Close + re-Initialize), or put it on the side (client vs server, transport) that the ten listed changes attack least.''',
 }
 HEAD = '''You are helping to evaluate a verification framework for the Go library trpc-group/trpc-mcp-go (Model Context Protocol clients and servers over JSON-RPC: Streamable HTTP, legacy SSE and STDIO transports, session management). Your job is to write TWO independent, realistic, subtle code changes ("seeded defects") to the library, each of which BREAKS the semantic property below while the library still compiles and its whole existing test suite still passes. Think of the kind of slip a competent maintainer could make in a refactor, optimisation, feature addition or "tidy-up" commit, that code review might let through.
